@@ -591,6 +591,11 @@ def _run(ctx: Ctx):
     c13_custom.run_custom(ctx, specials, seeded)
     c13_custom.run_text_and_dispatch(ctx)
 
+    # --- the format-selection glue: Formatting / set_cell_formatting / format_archive / control archives / formatted_value dispatch
+    from checks import fmtglue
+    import sys
+    fmtglue.run_c13(ctx, sys.modules[__name__])
+
     # --- the third-party assumptions, directly ---------------------------------------------------------------------------
     bad = 0
     for x in specials + seeded:
@@ -604,6 +609,9 @@ def replay(data):
     warnings.showwarning = lambda *a, **k: None
     from numbers_parser import FractionAccuracy, NegativeNumberStyle
     i = dict(data.get("input", {}))
+    if i.get("glue"):
+        from checks import fmtglue
+        return fmtglue.replay(i)
     if str(i.get("format", "")).startswith("custom"):
         from checks import c13_custom
         return c13_custom.replay_custom(i)
